@@ -64,6 +64,8 @@ type scenario struct {
 	Bound   int     `json:"bound,omitempty"`
 	MatchIdx int    `json:"matchidx,omitempty"`
 	Seq      []bool `json:"seq,omitempty"`     // keep-alive: the requests one client connection sends in turn (true = the URL the shape names, false = another URL)
+	ReqClose bool   `json:"reqclose,omitempty"` // the request carries "Connection: close" (the proxy then marks the response accordingly, after the modifiers)
+	Teardown string `json:"teardown,omitempty"` // "wrapped-first": after the exchange the wrapped (inner) connection is closed before the shaped one, so closing the shaped connection reports an error
 	HeadPad  int    `json:"headpad,omitempty"` // the response head carries an X-Pad header of this many bytes (heads larger than the proxy's 4096-byte write buffer reach the shaped connection in several writes) // index of the shape whose url_regex matches the requested URL (the others name other URLs)
 }
 
@@ -342,7 +344,11 @@ func run(sc scenario) (body func(), check func(r *vrt.Result) []finding) {
 			if sc.R > 0 {
 				rng = fmt.Sprintf("Range: bytes=%d-\r\n", sc.R)
 			}
-			cl.Send("GET " + url + " HTTP/1.1\r\nHost: example\r\nX-Conn: " + fmt.Sprint(i) + "\r\n" + rng + "\r\n")
+			extra := ""
+			if sc.ReqClose {
+				extra = "Connection: close\r\n"
+			}
+			cl.Send("GET " + url + " HTTP/1.1\r\nHost: example\r\nX-Conn: " + fmt.Sprint(i) + "\r\n" + extra + rng + "\r\n")
 			res, err := http.ReadResponse(cl.BR, &http.Request{Method: "GET"})
 			if err != nil {
 				o.err = "head: " + err.Error()
@@ -359,6 +365,14 @@ func run(sc scenario) (body func(), check func(r *vrt.Result) []finding) {
 			o.end = vrt.Now()
 			if err != nil {
 				o.eof = true
+			}
+			if sc.Teardown == "wrapped-first" {
+				// somebody (a hijacker, the TLS layer on top, the OS) tears the inner connection down first: the
+				// proxy's handler then fails to read and closes the shaped connection, whose own close now
+				// reports an error - the resources created for the shaped connection must be released all the same
+				if i < len(w.L.Accepted) {
+					w.L.Accepted[i].Close()
+				}
 			}
 		}
 		var ths []*vrt.Thread
@@ -766,6 +780,18 @@ func scenarios(tier string) []scenario {
 			scenario{Name: "multi-shape", Shapes: []shape{other1, mine, other2}, MatchIdx: 1, N: n, Match: true, Conns: 2},
 			scenario{Name: "multi-shape", Shapes: []shape{other1, other2}, N: n, Match: false, Conns: 1},
 		)
+	}
+	// the request asks for the connection to be closed: the head that is written carries one more header line than
+	// the response had when the shaping offsets were set up
+	for _, n := range []int{600, 5000} {
+		for _, r := range []int{0, 500} {
+			out = append(out, scenario{Name: "req-close", Shapes: []shape{{Regex: matchURL, Closes: []closeAct{{Byte: int64(r) + 300, Count: -1}}, Halts: []halt{{Byte: int64(r) + 100, Dur: 2000, Count: -1}}}}, N: n, R: r, Match: true, Conns: 1, ReqClose: true})
+			out = append(out, scenario{Name: "req-close", Shapes: []shape{{Regex: matchURL, Throttles: []throttle{{Bytes: fmt.Sprintf("%d-", r+200), BW: 100}}}}, N: n, R: r, Match: true, Conns: 1, ReqClose: true})
+		}
+	}
+	// the inner connection is torn down before the shaped one is closed
+	for _, sh := range []shape{{Regex: matchURL, Throttles: []throttle{{Bytes: "0-", BW: 1000}}}, {Regex: matchURL, Closes: []closeAct{{Byte: 10000, Count: -1}}}} {
+		out = append(out, scenario{Name: "teardown", Shapes: []shape{sh}, N: 600, Match: true, Conns: 2, Teardown: "wrapped-first"})
 	}
 	// keep-alive: several responses on one shaped connection, to the URL the shape names and to another one
 	for _, seq := range [][]bool{{true, false}, {false, true}, {true, true}, {true, false, true}, {false, false}} {
